@@ -6,27 +6,14 @@ Driver handler for the reindex model.
              "posmap": [int|null, …]   (kind = table: pandas `in` / `get_loc` answered by the harness),
              "strict": bool, "strict_arg": null|bool, "fill_value": pv, "fills": [[name, pv], …],
              "vars": [[name, dtype, [values]], …]}
-    dtype: "f" | "i" | "b" | {"s": width};  values: f → IEEE bits, i → int, b → bool, s → string
+    dtype: {"k": kind, "n": itemsize, "name": str(dtype), "casts": [[pv, text|null], …]}
+    values: float64 → IEEE bits, integer-like → int, bool → bool, <U → string, anything else → canonical text
     pv: null | {"b": bool} | {"i": int} | {"f": bits, "int": int|null, "str": text} | {"s": text}
   reply: `ok:` + JSON [[name, dtype, [values]], …] (floats: "nan" or bits) | `err:<KeyError|coercion|IndexError|unmodelled>`
 -/
 open Lean Fsic.Reindex
 
 namespace Drv.Reindex
-
-def parseDType (j : Json) : R DType :=
-  match j with
-  | .str "f" => pure .float
-  | .str "i" => pure .int
-  | .str "b" => pure .bool
-  | _ => do pure (.str (← nat j "s"))
-
-def parseVal (d : DType) (j : Json) : R Val :=
-  match d with
-  | .float => do pure (.f (← j.getNat?))
-  | .int => do pure (.i (← j.getInt?))
-  | .bool => do pure (.b (← j.getBool?))
-  | .str _ => do pure (.s (← j.getStr?).toList)
 
 def parsePyVal (j : Json) : R PyVal :=
   match j with
@@ -44,24 +31,44 @@ def parsePyVal (j : Json) : R PyVal :=
           pure (.f (← v.getNat?) asInt (← str j "str").toList)
         | .error _ => do pure (.s (← str j "s").toList)
 
-def parseVar (j : Json) : R (String × Series) := do
+/-- `{"k": kind char, "n": item size, "name": str(dtype), "casts": [[pv, text|null], …]}` — the model decides the
+    branch (`mkDType`); `casts` (NumPy's own cast of each candidate fill value) is used by pass-through dtypes only. -/
+def parseDType (j : Json) : R DType := do
+  let k ← str j "k"
+  let kind := k.toList.headD ' '
+  let casts ← (← arr j "casts").toList.mapM fun row => do
+    match (← row.getArr?).toList with
+    | [pv, v] =>
+      let x ← match v with
+        | .null => pure none
+        | t => do pure (some (Val.o (← t.getStr?).toList))
+      pure ((← parsePyVal pv), x)
+    | _ => throw "bad cast row"
+  pure (mkDType kind (← nat j "n") casts)
+
+def parseVal (d : DType) (j : Json) : R Val :=
+  match d with
+  | .float => do pure (.f (← j.getNat?))
+  | .int _ _ => do pure (.i (← j.getInt?))
+  | .bool => do pure (.b (← j.getBool?))
+  | .str _ => do pure (.s (← j.getStr?).toList)
+  | .other _ => do pure (.o (← j.getStr?).toList)
+
+def parseVar (j : Json) : R ((String × Series) × String) := do
   match (← j.getArr?).toList with
   | [n, d, vs] =>
-    let d ← parseDType d
-    pure ((← n.getStr?), ⟨d, ← (← vs.getArr?).toList.mapM (parseVal d)⟩)
+    let dt ← parseDType d
+    pure (((← n.getStr?), ⟨dt, ← (← vs.getArr?).toList.mapM (parseVal dt)⟩), (← str d "name"))
   | _ => throw "bad var"
 
 def isNaNBits (b : Nat) : Bool := (b >>> 52) % 2048 == 2047 && b % (2 ^ 52) != 0
-
-def dtypeJson : DType → Json
-  | .float => "f" | .int => "i" | .bool => "b"
-  | .str w => Json.mkObj [("s", w)]
 
 def valJson : Val → Json
   | .f b => if isNaNBits b then "nan" else Json.num b
   | .i v => Json.num v
   | .b v => Json.bool v
   | .s v => Json.str (String.ofList v)
+  | .o t => Json.str (String.ofList t)
 
 def errStr : Err → String
   | .keyError => "KeyError" | .coercion => "coercion" | .indexError => "IndexError" | .unmodelled => "unmodelled"
@@ -69,7 +76,9 @@ def errStr : Err → String
 def handleReindex (j : Json) : R String := do
   let old ← (← arr j "old").toList.mapM (·.getNat?)
   let new ← (← arr j "new").toList.mapM (·.getNat?)
-  let vars ← (← arr j "vars").toList.mapM parseVar
+  let pvars ← (← arr j "vars").toList.mapM parseVar
+  let vars := pvars.map (·.1)
+  let dnames := pvars.map (·.2)
   let o : Obj Unit := ⟨old, vars, ← bool j "strict", ()⟩
   let sa ← match optObj j "strict_arg" with
     | some v => do pure (some (← v.getBool?))
@@ -92,8 +101,8 @@ def handleReindex (j : Json) : R String := do
   match r with
   | .error e => pure ("err:" ++ errStr e)
   | .ok r =>
-    pure ("ok:" ++ Json.compress (Json.arr (r.vars.map fun nv =>
-      Json.arr #[Json.str nv.1, dtypeJson nv.2.dtype, Json.arr (nv.2.data.map valJson).toArray]).toArray))
+    pure ("ok:" ++ Json.compress (Json.arr ((r.vars.zip dnames).map fun (nv, dn) =>
+      Json.arr #[Json.str nv.1, Json.str dn, Json.arr (nv.2.data.map valJson).toArray]).toArray))
 
 def handlers : List (String × (Lean.Json → Except String String)) :=
   [("reindex", handleReindex)]
